@@ -574,3 +574,61 @@ def msd_atom_major_all_n(ctx, case):
 
 
 contract("C06", FILE, "msd_atom_major(every-atom-count)", cases=[0, 1, 2, 3], lang="c", replay="rmsd", covers=["returned"], max_paths=100)(msd_atom_major_all_n)
+
+
+# =====================================================================================================
+# rot_atom_major for EVERY atom count
+def rot_atom_major_all_n(ctx, case):
+    """n = 4q + r atoms (q symbolic): the block loop rotates the conformation IN PLACE, four atoms per iteration; it is cut at the invariant
+           memory of a  =  (t < 12K ? ROT(t) : a0[t])      for every index t,    pointer a0 + 12K,
+       where ROT(3*atom + j) = sum_i a0[3*atom + i] * rot[3i + j] (definition instantiated at the atoms of the arbitrary block and at the probe atom);
+       the scalar epilogue handles the r remaining atoms.  Result: EVERY atom below n is replaced by x.R, nothing at or beyond 3n is written, the matrix is not
+       written.  (The universally quantified statements are proved for an arbitrary probe index / probe atom.)"""
+    from mdvc.cinterp import CLoopSpec
+
+    r = case
+    ex = ctx.ex
+    c = ctx.load_c("mdtraj/rmsd/src/rotation.cpp", ["rot_atom_major", "aos_deinterleaved_loadu", "aos_interleaved_storeu", "_mm_add3_ps"], **INC)
+    A, Rm = Region("a"), Region("rot")
+    A.mem0, Rm.mem0 = A.mem, Rm.mem
+    q = ctx.int("q")
+    ctx.assume(q >= 0, 4 * q.t + r >= 1)
+    n = SInt(4 * q.t + r)
+    ROT = z3.Function("ROT", z3.IntSort(), z3.RealSort())
+    rot_def = lambda atom: z3.And(*[ROT(3 * atom + j) == sum(z3.Select(A.mem0, 3 * atom + i) * z3.Select(Rm.mem0, 3 * i + j) for i in range(3)) for j in range(3)])
+    K, T, PA = ctx.int("K"), ctx.int("probe_index"), ctx.int("probe_atom")
+    ctx.assume(T >= 0)
+    t_ = z3.Int("t!")
+
+    def havoc(interp, env, g):
+        interp.setvar(env, "k", K)
+        interp.setvar(env, "a", Ptr(A, SInt(12 * K.t)))
+        A.mem = z3.Lambda([t_], z3.If(t_ < 12 * K.t, ROT(t_), z3.Select(A.mem0, t_)))
+        A.writes.clear()
+        return [K.t >= 0] + [rot_def(4 * K.t + l) for l in range(4)]
+
+    def inv(interp, env, g):
+        k = term(interp.getvar(env, "k"))
+        pa = interp.getvar(env, "a")
+        nit = term(interp.getvar(env, "n_iters"))
+        return [("n_iters=number-of-full-blocks", nit == q.t), ("0<=k<=n_iters", z3.And(k >= 0, k <= q.t)),
+                ("a=a0+12k", z3.And(z3.BoolVal(isinstance(pa, Ptr) and pa.region is A), term(pa.off) == 12 * k) if isinstance(pa, Ptr) else z3.BoolVal(False)),
+                ("memory:rotated-below-12k,untouched-from-12k-on(probe-index)", z3.Select(A.mem, T.t) == z3.If(T.t < 12 * k, ROT(T.t), z3.Select(A.mem0, T.t)))]
+
+    def exit_state(interp, env, g):
+        interp.setvar(env, "k", SInt(q.t))
+    c.loop_specs[("rot_atom_major", 0)] = CLoopSpec(havoc, inv, exit_state=exit_state)
+    out = ctx.ccall("rot_atom_major", n, Ptr(A, 0), Ptr(Rm, 0))
+    ctx.ensure("returns-normally", out.exc is None)
+    if out.exc is not None:
+        return
+    ctx.cover("returned")
+    ctx.assume(rot_def(PA.t), *[rot_def(4 * q.t + l) for l in range(r)])
+    for j in range(3):
+        ctx.ensure(f"every-atom-below-n:x'[{j}]=sum_i-x[i]*rot[3i+{j}](probe-atom)", z3.Implies(z3.And(PA.t >= 0, PA.t < n.t),
+                   z3.Select(A.mem, 3 * PA.t + j) == sum(z3.Select(A.mem0, 3 * PA.t + i) * z3.Select(Rm.mem0, 3 * i + j) for i in range(3))))
+    ctx.ensure("nothing-at-or-beyond-3n-is-changed(probe-index)", z3.Implies(T.t >= 3 * n.t, z3.Select(A.mem, T.t) == z3.Select(A.mem0, T.t)))
+    ctx.ensure("rotation-matrix-not-written", not Rm.writes)
+
+
+contract("C06", "mdtraj/rmsd/src/rotation_sse.h", "rot_atom_major(every-atom-count)", cases=[0, 1, 2, 3], lang="c", replay="rmsd", covers=["returned"], max_paths=100)(rot_atom_major_all_n)
